@@ -446,6 +446,83 @@ func constraintCases() []cCase {
 	return cs
 }
 
+// afterFault: an ID calculation that fails (error or panic) must not influence the next one.
+// Every fault kind is followed by NewParams / CalcID / Decode of valid parameter sets whose IDs
+// were recorded before the first fault; 3 rounds (an implementation that recycles its working
+// state may or may not hand the same object back).
+func (c *c17) afterFault(bases []pBase) {
+	res := c.res
+	n := big.NewInt(0x77)
+	two := func() []map[wallet.BackendID]wallet.Address { return nParts(2) }
+	faults := []struct {
+		name string
+		f    func()
+	}{
+		{"CalcID/nonce-129-bytes", func() {
+			channel.CalcID(&channel.Params{ChallengeDuration: 60, Parts: two(), App: channel.NoApp(), Nonce: new(big.Int).Lsh(big.NewInt(1), 8*perunio.MaxBigIntLength), LedgerChannel: true}) //nolint:errcheck
+		}},
+		{"CalcID/nil-nonce", func() {
+			channel.CalcID(&channel.Params{ChallengeDuration: 60, Parts: two(), App: channel.NoApp(), LedgerChannel: true}) //nolint:errcheck
+		}},
+		{"NewParamsUnsafe/nil-app", func() { channel.NewParamsUnsafe(60, two(), nil, n, true, false, channel.ZeroAux) }},
+		{"NewParams/negative-nonce", func() { channel.NewParams(60, two(), channel.NoApp(), big.NewInt(-5), true, false, channel.ZeroAux) }}, //nolint:errcheck
+		{"CalcID/nil-participant-map", func() {
+			channel.CalcID(&channel.Params{ChallengeDuration: 60, Parts: []map[wallet.BackendID]wallet.Address{nil, nil}, App: channel.NoApp(), Nonce: n, LedgerChannel: true}) //nolint:errcheck
+		}},
+	}
+	type ref struct {
+		b   pBase
+		m   pMember
+		id  channel.ID
+		enc []byte
+	}
+	var refs []ref
+	for i, b := range bases {
+		if i >= 3 {
+			break
+		}
+		m := pCatalogue(b)[0]
+		e, ok, _ := enc(m.p)
+		if !ok {
+			continue
+		}
+		refs = append(refs, ref{b, m, m.p.ID(), e})
+	}
+	for round := 0; round < 3; round++ {
+		for _, ft := range faults {
+			for _, r := range refs {
+				try(ft.f) // the outcome of the fault itself is the business of the constraint cases
+				res.Count("evaluations", 1)
+				res.Count("after_fault_cases", 1)
+				bad := func(what string, got channel.ID) {
+					res.Violate("C17", "C17:id-after-failed-calculation:"+ft.name, fmt.Sprintf("[%s, round %d] after a failed ID calculation (%s), %s gives %x, the ID of these parameters is %x", r.b.name(), round, ft.name, what, got, r.id),
+						replay{Harness: "values", Prop: "C17", Check: "after-fault", Base: r.b.name(), Case: ft.name})
+				}
+				var id2 channel.ID
+				if pan := try(func() {
+					p2, err := r.m.spec.build()
+					if err == nil {
+						id2 = p2.ID()
+					}
+				}); pan != "" || id2 != r.id {
+					bad("NewParams with the same values", id2)
+					continue
+				}
+				try(ft.f)
+				if id3, err := channel.CalcID(r.m.p); err != nil || id3 != r.id {
+					bad("CalcID of the same object", id3)
+					continue
+				}
+				try(ft.f)
+				var d channel.Params
+				if err := d.Decode(bytes.NewReader(r.enc)); err != nil || d.ID() != r.id {
+					bad("Decode of their encoding", d.ID())
+				}
+			}
+		}
+	}
+}
+
 func outcome(f func() (*channel.Params, error)) (kind, detail string) {
 	var p *channel.Params
 	var err error
@@ -645,13 +722,14 @@ func runC17(t *testing.T, res *report.Result) {
 	res.Count("catalogue_members", int64(members))
 	res.Count("distinct_parameter_sets", int64(len(byKey)))
 	res.Count("distinct_ids", int64(len(byID)))
+	c.afterFault(bases)
 	for _, cc := range constraintCases() {
 		c.constraint(cc)
 	}
 	c.twoBackend()
 	res.Extra["exhaustive"] = true
-	res.Extra["bound"] = fmt.Sprintf("%d base parameter sets (2-3 participants x app none/A/B x 4 flag combinations x nonce 0x1234/0/2^256-1 x duration 60/1/2^64-1) x every single-field change; all ordered pairs per base plus ID<->fields bijection over all %d members; %d constraint cases",
-		len(bases), members, len(constraintCases()))
+	res.Extra["bound"] = fmt.Sprintf("%d base parameter sets (2-3 participants x app none/A/B x 4 flag combinations x nonce 0x1234/0/2^256-1 x duration 60/1/2^64-1) x every single-field change; all ordered pairs per base plus ID<->fields bijection over all %d members; %d constraint cases; %d ID calculations of valid parameter sets, each directly after a failed one (5 fault kinds, 3 rounds)",
+		len(bases), members, len(constraintCases()), res.Counters["after_fault_cases"])
 	res.Note("nonce with another byte length but the same number: not constructible as a big.Int (always normalised); covered on the encoding side (zero-padded nonce bytes, %d decodes)", res.Counters["padded_nonce_decodes"])
 	res.Note("Aux is outside the statement: %d ordered pairs differing in Aux had equal IDs, %d different IDs (recorded, not judged)", res.Counters["aux_differs_id_equal"], res.Counters["aux_differs_id_differs"])
 }
@@ -667,6 +745,8 @@ func replayC17(t *testing.T, res *report.Result, rp replay) {
 		}
 	case "twobackend":
 		c.twoBackend()
+	case "after-fault":
+		c.afterFault(pBases(res.Thorough()))
 	case "pair", "stable":
 		for _, b := range pBases(true) {
 			if b.name() != rp.Base {
